@@ -308,7 +308,7 @@ def kaplanWald (cfg : Cfg) (x : List Rat) : Except Err (XR × List XR) := do
   pure (XR.npmin (1 : XR) ((1 : XR) / stat), T.map (fun p => XR.npmin ((1 : XR) / p) (1 : XR)))
 
 /-- `wald_sprt` (L606-680), repaired: single cumulative product, alternative truncated at `u`,
-`alpha_mart`'s boundary conventions, overall p-value capped at 1 -/
+`alpha_mart`'s boundary conventions, overall p-value capped at 1, alternative not below the null mean -/
 def waldSprt (cfg : Cfg) (x : List Rat) : Except Err (XR × List XR) := do
   let u := cfg.u
   let eta := cfg.kw.eta.getD (u * (1 - eps))
@@ -324,6 +324,7 @@ def waldSprt (cfg : Cfg) (x : List Rat) : Except Err (XR × List XR) := do
         let e := mapIdxFrom (fun j s => XR.npmin (.fin u) ((XR.fin ((n : Rat) * eta - s)) / den j)) 1 S
         pure (m, e)
     | none => pure (x.map (fun _ => XR.fin cfg.t), x.map (fun _ => XR.fin eta)))
+  let etas := (etas.zip m).map (fun (e, mj) => XR.npmax e mj)          -- etas = np.maximum(etas, m)
   let factors := (x.zip (etas.zip m)).map fun (xj, e, mj) =>
     ((XR.fin xj) * e / mj + (XR.fin (u - xj)) * ((XR.fin u) - e) / ((XR.fin u) - mj)) / (XR.fin u)
   let terms := XR.cumprod factors
